@@ -751,6 +751,44 @@ func enrollCaseBody(c *engine.Ctx, ec enrollCase) {
 	}
 	r.Count("real_handshakes", 1)
 	r.Count("real_handshakes:"+ec.Flow, 1)
+
+	// ---- the node repeats its fetch (e.g. it lost the first answer) -----------------------------------
+	// Whatever the server answers must again be built from what it has stored: either no credentials,
+	// or credentials that open with the node's key and equal the stored record.
+	resp2, err2 := registration.FetchNodeCredentials(s.Ctx, s.Store, req, s.Opts()...)
+	switch {
+	case err2 != nil || resp2 == nil || len(resp2.EncryptedNodeCredentials) == 0:
+		r.Count("repeated_fetch_refused:"+ec.Flow, 1)
+		if err2 != nil && resp2 != nil {
+			viol("repeat-fetch-error-with-response", "a repeated fetch returned an error together with a response")
+		}
+	default:
+		r.Count("repeated_fetch_answered:"+ec.Flow, 1)
+		ni2, lerr := s.LoadNode(keyID)
+		if lerr != nil || ni2 == nil {
+			viol("repeat-fetch-record-missing", fmt.Sprintf("after a repeated fetch that was answered the node record cannot be loaded: %v", lerr))
+			break
+		}
+		if !bytes.Equal(world.X25519Pub(ni2.ServerEncryptionPrivateKeyBytes), resp2.ServerEncryptionPublicKeyBytes) {
+			viol("repeat-fetch-server-key-differs", "a repeated fetch was answered with a server encryption key that is not the one in the stored node record")
+			break
+		}
+		got2, ok2 := enrollOpen(resp2.EncryptedNodeCredentials, n.Enc.Priv, resp2.ServerEncryptionPublicKeyBytes, keyID)
+		if !ok2 {
+			viol("repeat-fetch-not-openable", "a repeated fetch was answered with credentials the node cannot open with its key")
+			break
+		}
+		if len(got2.CertificateBundles) != len(ni2.CertificateBundles) {
+			viol("repeat-fetch-bundles-differ", "a repeated fetch was answered with certificate chains that differ from the stored node record")
+			break
+		}
+		for i := range got2.CertificateBundles {
+			if !proto.Equal(got2.CertificateBundles[i], ni2.CertificateBundles[i]) {
+				viol("repeat-fetch-bundles-differ", "a repeated fetch was answered with certificate chains that differ from the stored node record")
+				break
+			}
+		}
+	}
 }
 
 func runEnroll(c *engine.Ctx) engine.Result {
